@@ -2,7 +2,10 @@
 // the statement, built in the same intermediate form as the generated ones.
 package main
 
-import "fmt"
+import (
+	"fmt"
+	"strings"
+)
 
 type cb struct {
 	n map[int]int
@@ -106,6 +109,23 @@ func corpus() []*Case {
 		n.Router = &Router{Type: "random", ResultName: "Bucket", Cats: []Category{{UUID: c1, Name: "Bucket 1", Exit: e1.UUID}}}
 		c := baseCase("corpus-savers", mkflow(0, n))
 		c.Services.HTTPStatus = []int{410, 200}
+		out = append(out, c)
+	}
+	// voice flow whose dial wait takes the number to dial from a contact field / a global
+	for _, phone := range []string{"@fields.phone", "@globals.org_name"} {
+		e1, e2 := b.exit(""), b.exit("")
+		c1, c2 := b.id(kCat), b.id(kCat)
+		n := &Node{UUID: b.id(kNode), Actions: []*Action{}, Exits: []Exit{e1, e2},
+			Router: &Router{Type: "switch", Operand: "@(default(resume.dial.status, \"\"))", ResultName: "Dial", Default: c2,
+				Cats:  []Category{{UUID: c1, Name: "Answered", Exit: e1.UUID}, {UUID: c2, Name: "Other", Exit: e2.UUID}},
+				Cases: []RCase{{UUID: b.id(kCase), Type: "has_only_text", Cat: c1, Args: TField{Key: "arguments", Shape: "list", Localized: true, Vals: []string{"answered"}}}},
+				Wait:  &Wait{Type: "dial", Phone: phone}}}
+		f := mkflow(0, n)
+		f.Type = "voice"
+		c := baseCase("corpus-dial-wait-phone-"+strings.TrimPrefix(phone, "@"), f)
+		c.Contact.Fields["phone"] = "+12065550123"
+		c.History = []Resume{{Kind: "dial", Dial: "answered"}}
+		c.InModel = false
 		out = append(out, c)
 	}
 	return out
